@@ -166,11 +166,21 @@ fn make_variants(base: &Abs, rng: &mut Rng) -> Vec<Variant> {
             atts.push((n + a, n + b));
         }
         rng.shuffle(&mut atts);
+        // some attacks of the base graph are only inserted after the extra component has been removed
+        // again (removals followed by insertions: freed slots, stale per-argument lists)
+        let mut late: Vec<(usize, usize)> = Vec::new();
         for (a, b) in atts {
-            ops.push(Op::AddAtt(labels[a], labels[b]));
+            if a < n && b < n && rng.pct(25) {
+                late.push((a, b));
+            } else {
+                ops.push(Op::AddAtt(labels[a], labels[b]));
+            }
         }
         for j in rng.perm(g.n) {
             ops.push(Op::DelArg(labels[n + j]));
+        }
+        for (a, b) in late {
+            ops.push(Op::AddAtt(labels[a], labels[b]));
         }
         v.push(Variant {
             name: "component-added-then-removed",
